@@ -94,6 +94,23 @@ def mech(kind, w):
     if kind == "coerce_value-disagrees-with-coerce" and short == "Timedelta64" and \
             w.get("coerce_value", "").startswith("td:"):
         return "timedelta-coerce_value-truncates-nanoseconds"
+    MASKED = ("Int8", "Int16", "Int32", "Int64", "UInt8", "UInt16",
+              "UInt32", "UInt64", "Float32", "Float64", "boolean")
+    masked_with_na = (
+        (in_dtype in MASKED and "<null>" in cont.get("values", [])) or
+        (str(cont.get("dtype2")) in MASKED and "<null>" in cont.get("values2", [])))
+    if kind == "failure-cases-differ-from-unconvertible-elements" and masked_with_na \
+            and not cls.startswith("polars_engine."):
+        # Series.map on a masked array that holds NA hands float64 / nan cells
+        # to coerce_value instead of the stored cells
+        return "coercible-map-reboxes-masked-array-with-na-as-float"
+    out_dtypes = str((w.get("output") or {}).get("dtype", "")) + \
+        str((w.get("output") or {}).get("dtypes", ""))
+    if kind in S2_KINDS and cls == "pandas_engine.Date" and "datetime64[ns]" in out_dtypes:
+        return "pandas-date-coerce-of-all-null-yields-datetime64"
+    if kind in S2_KINDS + ("not-idempotent",) and cls == "numpy_engine.Bool" and \
+            in_dtype == "category" and "<null>" in cont.get("values", []):
+        return "numpy-bool-coerce-of-categorical-with-null-yields-object"
     if cls.startswith("pandas_engine.Python"):
         if kind in S2_KINDS and empty:
             return "python-generic-coerce-of-empty-container-keeps-dtype"
@@ -106,19 +123,30 @@ def mech(kind, w):
             return "polars-struct-input-cast-applies-to-fields"
         if short == "Category" and kind in S2_KINDS:
             return "polars-category-coerced-result-fails-own-check"
-        if short == "Category" and kind == "try_coerce-raised-non-ParserError" and \
-                "unsupported operand type(s) for &: 'LazyFrame'" in exc:
-            return "polars-category-try_coerce-raises-typeerror"
+        if short == "Category" and (
+                kind == "try_coerce-raised-non-ParserError" or
+                (kind.startswith("contract:") and "condition raised" in str(w.get("detail")))):
+            # failure path builds `LazyFrame & LazyFrame`; coerce casts the
+            # whole frame (ignores the column key) and is never collected
+            return "polars-category-try_coerce-raises-raw-errors"
         if kind == "failure-cases-include-null-input":
             return "polars-failure-cases-include-null-inputs"
+        if short == "Decimal" and kind in F2_KINDS:
+            # coerce casts via Float64, the failure cases come from a direct cast
+            return "polars-decimal-failure-cases-use-another-cast-route-than-coerce"
     if kind == "try_coerce-raised-non-ParserError":
         where = w.get("where", "")
         if "type of data_container <class 'pandas.core.indexes." in exc and \
                 where.endswith("numpy_pandas_coerce_failure_cases"):
             return "coerce-failure-cases-index-subclass-not-understood"
-        if "does not support reduction 'all'" in exc and where.endswith("postprocess_field"):
-            return "coerce-failure-cases-categorical-input-reduction"
-        if exc.startswith("ArrowNotImplementedError") and where.endswith("postprocess_table"):
+        if where.endswith("_get_series_failure_cases") and cont.get("shape") == "index":
+            # Index.to_series() makes the (unhashable / incomparable) values the labels
+            return "coerce-failure-cases-index-values-used-as-labels"
+        post = where.endswith(("postprocess_field", "postprocess_table"))
+        if post and "Categorical" in exc and in_dtype == "category":
+            return "coerce-failure-cases-categorical-input"
+        if exc.startswith("Arrow") and where.endswith("postprocess_table") and \
+                "[pyarrow]" in in_dtype + str(cont.get("dtype2", "")):
             return "coerce-failure-cases-frame-with-arrow-columns"
     return None
 
@@ -353,8 +381,8 @@ def pandas_success(run, eng, t, kind, extra, c, out, base):
             G.is_null(v) or G.exact(kind, extra, v)[0] for v in vin)
         for i, v in enumerate(vin):
             if G.is_null(v):
-                if str(getattr(cin, "dtype", "")) == "category":
-                    run.count("undecided:null-in-categorical-input(pandas-astype)")
+                if not _null_judgeable(cin, kind):
+                    run.count("undecided:null-of-foreign-typed-input(pandas-astype)")
                 elif not all_exact:
                     run.count("undecided:null-beside-inexact-elements")
                 elif G.can_hold_null(t) and kind != "object":
@@ -369,7 +397,9 @@ def pandas_success(run, eng, t, kind, extra, c, out, base):
             if kind is None:
                 continue
             ex, want = G.exact(kind, extra, v)
-            if not ex:
+            if not ex or not all_exact:
+                # a container with a lossy / foreign element may take another
+                # conversion path in pandas / pyarrow: not judged
                 run.count(f"{eng}:S3_inexact_elements_not_judged")
                 continue
             run.count(f"{eng}:S3_exact_elements")
@@ -402,6 +432,19 @@ def pandas_success(run, eng, t, kind, extra, c, out, base):
             viol(run, "not-idempotent", dict(base, output=K._brief(out),
                                              again=K._brief(out2), diff=d))
     return n + 1
+
+
+def _null_judgeable(cin, kind):
+    """A missing value of a datetime / timedelta / categorical container that
+    is cast to another kind goes through pandas' integer view: not judged."""
+    d = str(getattr(cin, "dtype", "object"))
+    if d == "category":
+        return False
+    if d.startswith("datetime64"):
+        return kind in ("datetime", "date", "str", "object")
+    if d.startswith("timedelta64"):
+        return kind in ("timedelta", "str", "object")
+    return True
 
 
 def same_container(a, b):
@@ -567,6 +610,15 @@ def pl_kind(t):
     return nc[0], (nc, t)
 
 
+def _pl_list(series):
+    try:
+        return series.to_list()
+    except BaseException as e:  # pyo3 PanicException on out-of-range temporal
+        if isinstance(e, (KeyboardInterrupt, SystemExit)):
+            raise
+        raise Unreadable(repr(e)[:200]) from None
+
+
 def polars_case(run, rec, label, t, rng):
     import polars as pl
     from pandera.api.polars.types import PolarsData
@@ -607,7 +659,7 @@ def polars_case(run, rec, label, t, rng):
         elif not r:
             viol(run, "coerced-result-fails-own-check", dict(base, output=K._brief(out)))
         for col in cols:
-            vin, vout = df[col].to_list(), out[col].to_list()
+            vin, vout = _pl_list(df[col]), _pl_list(out[col])
             all_exact = kind is not None and all(
                 v is None or G.exact(kind, extra, v)[0] for v in vin)
             for i, v in enumerate(vin):
@@ -623,7 +675,7 @@ def polars_case(run, rec, label, t, rng):
                 if kind is None:
                     continue
                 ex, want = G.exact(kind, extra, v)
-                if not ex:
+                if not ex or not all_exact:
                     run.count("polars:S3_inexact_elements_not_judged")
                     continue
                 run.count("polars:S3_exact_elements")
@@ -668,7 +720,11 @@ def polars_failure(run, t, df, key, cols, err, base):
     run.count("polars:F2_failure_cases")
     if not bad_rows:
         run.count("polars:F2_container_failed_all_rows_convertible")
-    lists = {c: df[c].to_list() for c in cols}
+    from pandera.engines import polars_engine as _ple
+    if isinstance(t, _ple.Array):
+        run.count("undecided:polars-array-width-depends-on-the-whole-column")
+        return 0
+    lists = {c: _pl_list(df[c]) for c in cols}
     exp = Counter(tuple(G.vrepr(lists[c][i]) for c in cols) for i in bad_rows)
     if fc is None:
         got = Counter()
@@ -832,12 +888,33 @@ def _floors(run, ctx):
     if len(not_built) > 3:
         run.note_inconclusive(f"{len(not_built)} registered classes could not be built: "
                               f"{sorted(not_built)}")
-    q = 1 if ctx.tier == "quick" else 25
+    q = 1 if ctx.tier == "quick" else 8
     for name, m in FLOORS.items():
         run.floors[name] = m * q
+    if run.counters.get("harness_error_total", 0):
+        pass
 
 
-FLOORS = {}
+# quick-tier minimums, about 1/4 of what the unchanged tree gives (seed 0)
+FLOORS = {
+    "contract_evals_total:result_passes_own_check": 5000,
+    "contract_evals_total:same_length_and_labels": 5000,
+    "pandas:success": 1000, "pandas:parser_error": 1500,
+    "pandas:S2_own_check": 1000, "pandas:S3_exact_elements": 500,
+    "pandas:S3_null_elements": 60, "pandas:S5_idempotent": 1000,
+    "pandas:F2_failure_cases": 1500, "pandas:S3_vs_coerce_value": 400,
+    "numpy:success": 200, "numpy:F2_failure_cases": 150,
+    "polars:success": 500, "polars:parser_error": 300,
+    "polars:S2_own_check": 500, "polars:S3_exact_elements": 150,
+    "polars:S3_null_elements": 50, "polars:S5_idempotent": 500,
+    "polars:F2_failure_cases": 300,
+    "schema_level:pandas:expect_coercion_error": 2500,
+    "schema_level:pandas:reason_DATATYPE_COERCION": 2500,
+    "schema_level:pandas:expect_no_coercion_error": 1500,
+    "schema_level:polars:expect_coercion_error": 300,
+    "schema_level:polars:reason_DATATYPE_COERCION": 300,
+    "schema_level:polars:expect_no_coercion_error": 500,
+}
 
 
 def finalize(run, ctx):
